@@ -347,6 +347,47 @@ structure AgentExt (κ π : Type) where
   comment : κ → Str
   removeResult : π → Option Err
 
+/-! ### cmd/keymasterd `checkAuth` (whole function) -/
+
+/-- a request cookie: name and value -/
+structure Cookie where
+  name : Str
+  value : Str
+deriving DecidableEq, Repr
+
+def cookieName : Option Cookie → Str
+  | some c => c.name
+  | none => []
+def cookieValue : Option Cookie → Str
+  | some c => c.value
+  | none => []
+
+/-- effects of `checkAuth`: a refusal written to the client, a charge against the global password-attempt limiter, a
+question to the password backend -/
+inductive AuthEffect
+  | fail (status : Nat)
+  | limitCheck (user : Str)
+  | passwordTried (user : Str) (password : Str)
+deriving DecidableEq, Repr
+
+/-- externals of `checkAuth`: `Origin`/`Referer`, `url.Parse` and the host of the result, the two certificate
+evaluations over `r.TLS.VerifiedChains` (property C11 for the second), Basic-auth parsing, the attempt limiter, user-name
+normalisation, the password backend (property C07), the clock, and — as in the cookie tail — `getAuthInfoFromAuthJWT`
+(property C04) and the expiry test -/
+structure CheckAuthExt where
+  referer : Str
+  parseURL : Str → Nat × Option Err
+  urlHost : Nat → Str
+  kmSigned : Str × Nat × Option Err
+  ipRestricted : Str × Nat × Option Err × Option Err
+  basicAuth : Str × Str × Bool
+  attemptLimit : Str → Option Err
+  reprocess : Str → Str
+  checkPassword : Str → Str → Bool × Option Err
+  now : Nat
+  getAuthInfo : Str → authInfo × Option Err
+  expired : authInfo → Bool
+
 /-! ### cmd/keymasterd `consumeLoginChallenge` -/
 
 /-- `localUserData`: the pending challenge of a user; the two challenge pointers are compared by identity (numbers
